@@ -160,6 +160,35 @@ def plain_integer_boundaries(ctx):
                     ctx.count('plain_integer_boundary_cases')
 
 
+def largest_arrays(ctx):
+    """Arrays whose element data is exactly the 64 MiB the protocol allows for one array, and a few bytes less: conforming
+    values like any other (64 strings of about 1 MiB each)."""
+    n = 2 ** 20 - 8
+    for last_extra, little, off in ((3, True, 0), (0, False, 4), (3, False, 0), (-5, True, 4)):
+        strs = ['%02d' % i + 'x' * (n - 2) for i in range(63)] + ['63' + 'y' * (n - 2 + last_extra)]
+        data_len = 63 * 2 ** 20 + 4 + len(strs[-1]) + 1
+        case = {'stream': 'largest-array', 'data_len': data_len}
+        ctx.count('evaluations')
+        ctx.count('largest_array_cases')
+        w = {'array_data_bytes': data_len, 'limit': 2 ** 26, 'little': little, 'offset': off}
+        if data_len > 2 ** 26:
+            continue
+        try:
+            nb, chunks = M.marshal('as', [strs], off, little)
+            data = b''.join(chunks)
+            del chunks
+            n2, vals = M.unmarshal('as', bytes(off) + data, off, little)
+        except Exception as e:
+            ctx.report('largest-array-refused', 'an array of %d bytes of element data (the limit is 2**26 = %d) does not round-trip: '
+                       '%r' % (data_len, 2 ** 26, e), w, case)
+            return
+        if nb != len(data) or n2 != nb or vals != [strs]:
+            ctx.report('round-trip-value', 'an array of %d bytes of element data came back changed (%d bytes written, %d reported, '
+                       '%d consumed)' % (data_len, len(data), nb, n2), w, case)
+            return
+        del data, vals
+
+
 def _plain(v):
     if isinstance(v, (list, tuple)):
         return [_plain(x) for x in v]
@@ -244,6 +273,7 @@ def run(ctx):
     # all of them are conforming values of 'v' (INT32 when they fit, INT64 otherwise)
     if si == 0:
         plain_integer_boundaries(ctx)
+        largest_arrays(ctx)
     ctx.note('level_monitor', {'marshal_levels_checked': _mon['marshal_levels'],
                                'unmarshal_levels_checked': _mon['unmarshal_levels'],
                                'skipped_unexpected_shape': _mon['skipped']})
@@ -256,7 +286,9 @@ def replay(ctx, rp):
     install_monitors()
     case = rp['case']
     seed = rp.get('seed', 0)
-    if case['stream'] == 'int-bounds':
+    if case['stream'] == 'largest-array':
+        largest_arrays(ctx)
+    elif case['stream'] == 'int-bounds':
         plain_integer_boundaries(ctx)
     elif case['stream'] == 'enum':
         r = CC.case_rng(seed, 'enum', '%d/%s/%d' % (case['idx'], case['little'], case['off']))
